@@ -107,8 +107,11 @@ def run(prog, ctx):
         c = cfg_of(fi)
         data = fi.params[1]
         Mt = ("call", ("n", "len"), (("n", data),), ())
-        inv = ("op", "Div", (("c", "1"), ("n", "M")))
-        okM = any(b.kind == "assign" and tm.term(b.value) == Mt for b in tm.env.bindings.get("M", [])) and len(tm.env.bindings.get("M", [])) == 1
+        # role of M: the local defined as len(data)
+        Ms = [nm for nm, bs in tm.env.bindings.items() if any(b.kind == "assign" and b.value is not None and tm.term(b.value) == Mt for b in bs)]
+        MN = Ms[0] if Ms else "M"
+        inv = ("op", "Div", (("c", "1"), ("n", MN)))
+        okM = any(b.kind == "assign" and tm.term(b.value) == Mt for b in tm.env.bindings.get(MN, [])) and len(tm.env.bindings.get(MN, [])) == 1
         ctx.check(okM, "C16.D3", R.key_of(fi, "M-is-sample-count"), fi.loc(), "M = len(data)",
                   "the scaling constant M of the right-hand side is not len(%s)" % data)
         rets = [r for r in R.return_paths(fi)[0]]
@@ -122,14 +125,17 @@ def run(prog, ctx):
                 if isinstance(tg, ast.Subscript) and isinstance(tg.value, ast.Name) and tg.value.id == bname and tm.term(n.ast.value) == inv:
                     per_entry.append(n)
         # the reuse branch: entries copied from an already scaled vector, the others recomputed and scaled one by one
+        # role of the old vector: the local bound to self.old_B[...]
+        OBN = {nm for nm, bs in tm.env.bindings.items() for b in bs if b.kind == "assign" and b.value is not None
+               and tm.term(b.value)[0] == "s" and tm.term(b.value)[1] == ("a", ("n", "self"), "old_B")}
         copies = []
         for n in c.nodes:
             if n.kind == "stmt" and isinstance(n.ast, ast.Assign) and isinstance(n.ast.targets[0], ast.Subscript) and \
                     isinstance(n.ast.targets[0].value, ast.Name) and n.ast.targets[0].value.id == bname and n.idx in c.reachable():
                 v = tm.term(n.ast.value)
-                if v[0] == "s" and v[1] == ("n", "old_b"):
+                if v[0] == "s" and v[1][0] == "n" and v[1][1] in OBN:
                     copies.append(n)
-        markers = [c.node_of(b.stmt) for b in tm.env.bindings.get("old_b", []) if b.kind == "assign"]
+        markers = [c.node_of(b.stmt) for nm in OBN for b in tm.env.bindings.get(nm, []) if b.kind == "assign"]
         ok = bool(whole) and bool(per_entry) and bool(copies) and len(markers) == 1
         why = "expected a whole-vector scaling, a per-entry scaling (reuse branch) and the copy of old entries"
         if ok:
@@ -167,7 +173,12 @@ def run(prog, ctx):
             if n.kind == "stmt" and isinstance(n.ast, ast.AugAssign) and isinstance(n.ast.op, ast.Add) and isinstance(n.ast.target, ast.Subscript) \
                     and isinstance(n.ast.target.value, ast.Name) and n.ast.target.value.id == bname and n.idx in c.reachable():
                 t = tm.term(n.ast.value)
-                if not any(x == ("n", "sign") for x in subterms(t)):
+                # role of the sign factor: a local some definition of which reads self.classes[...] (the other one being the constant 1)
+                SG = {nm for nm, bs in tm.env.bindings.items() for b in bs if b.kind == "assign" and b.value is not None
+                      and any(x[0] == "s" and x[1] == ("a", ("n", "self"), "classes") for x in subterms(tm.term(b.value)))
+                      and not isinstance(b.value, (ast.ListComp, ast.GeneratorExp, ast.Call))}
+                used_sg = [x[1] for x in subterms(t) if x[0] == "n" and x[1] in SG]
+                if not used_sg:
                     continue
                 n4 += 1
                 # the sample index used in the accumulated value
@@ -178,7 +189,7 @@ def run(prog, ctx):
                         for b in tm.env.bindings.get(nm, []):
                             if b.kind == "assign" and b.value is not None:
                                 sample_idx |= {x[2] for x in subterms(tm.term(b.value)) if x[0] == "s" and x[1] == ("n", data)}
-                sdefs = [b for b in tm.env.bindings.get("sign", []) if b.kind == "assign"]
+                sdefs = [b for nm in set(used_sg) for b in tm.env.bindings.get(nm, []) if b.kind == "assign"]
                 loops = [l for l in n.loops]
                 rel = [b for b in sdefs if any(l in [x for x in R.enclosing_loops(b.stmt)] for l in loops)]
                 label_idx = set()
@@ -202,7 +213,7 @@ def run(prog, ctx):
             if isinstance(st, ast.Assign):
                 t = tm.term(st.value)
                 cls_uses = [x for x in subterms(t) if x == ("a", ("n", "self"), "classes")]
-                if cls_uses and isinstance(st.targets[0], ast.Name) and st.targets[0].id in (bname, "evaluations"):
+                if cls_uses and isinstance(st.targets[0], ast.Name) and isinstance(st.value, (ast.Call, ast.BinOp)):
                     n4 += 1
                     sliced = any(x[0] == "s" and x[1] == ("a", ("n", "self"), "classes") for x in subterms(t))
                     ctx.check(not sliced, "C16.D4", R.key_of(fi, "vectorised-labels#%d" % n4), fi.loc(st),
@@ -227,24 +238,40 @@ def run(prog, ctx):
         tm = Terms(fi.node, max_depth=0)
         c = cfg_of(fi)
         divs = []
+        # role of the normalising integral: the local(s) that the surpluses are divided by (the divisor of a `/` or `/=` whose
+        # dividend involves the solution of the linear system, i.e. is not a literal)
+        divisor_names = set()
         for n in c.nodes:
             if n.kind != "stmt" or n.ast is None or n.idx not in c.reachable():
                 continue
             for x in ast.walk(n.ast):
-                if isinstance(x, ast.BinOp) and isinstance(x.op, ast.Div) and isinstance(x.right, ast.Name) and x.right.id == "integral":
+                if isinstance(x, ast.BinOp) and isinstance(x.op, ast.Div) and isinstance(x.right, ast.Name) and not isinstance(x.left, ast.Constant):
+                    divisor_names.add(x.right.id)
+            if isinstance(n.ast, ast.AugAssign) and isinstance(n.ast.op, ast.Div) and isinstance(n.ast.value, ast.Name):
+                divisor_names.add(n.ast.value.id)
+        # ... restricted to locals computed from clipped / summed values (not sizes like len(...))
+        INT = {nm for nm in divisor_names if any(b.kind == "assign" and b.value is not None and
+                                                 any(isinstance(y, ast.Attribute) and y.attr in ("clip", "sum", "inner", "dot", "mean") for y in ast.walk(b.value))
+                                                 for b in tm.env.bindings.get(nm, []))}
+        for n in c.nodes:
+            if n.kind != "stmt" or n.ast is None or n.idx not in c.reachable():
+                continue
+            for x in ast.walk(n.ast):
+                if isinstance(x, ast.BinOp) and isinstance(x.op, ast.Div) and isinstance(x.right, ast.Name) and x.right.id in INT:
                     divs.append((n, x))
-            if isinstance(n.ast, ast.AugAssign) and isinstance(n.ast.op, ast.Div) and isinstance(n.ast.value, ast.Name) and n.ast.value.id == "integral":
+            if isinstance(n.ast, ast.AugAssign) and isinstance(n.ast.op, ast.Div) and isinstance(n.ast.value, ast.Name) and n.ast.value.id in INT:
                 divs.append((n, n.ast))
         ok = bool(divs)
         why = "no division by the normalising integral found"
         for (n, x) in divs:
             guards = [g for (g, gn) in R.dominating_guards(fi, n, tm) if gn.kind == "test"]
-            nz = any(g[0] == "cmp" and g[1] == "NotEq" and ("n", "integral") in (g[2], g[3]) and
+            dn = x.right.id if isinstance(x, ast.BinOp) else x.value.id
+            nz = any(g[0] == "cmp" and g[1] == "NotEq" and ("n", dn) in (g[2], g[3]) and
                      any(y[0] == "c" and float(ast.literal_eval(y[1])) == 0 for y in (g[2], g[3]) if y[0] == "c") for g in guards)
             if not nz:
                 ok = False
                 why = "`%s` divides by the integral without a dominating non-zero test" % src(x)[:60]
-        defs = [b for b in tm.env.bindings.get("integral", []) if b.kind == "assign"]
+        defs = [b for nm in sorted(INT) for b in tm.env.bindings.get(nm, []) if b.kind == "assign"]
         for b in defs:
             t = tm.term(b.value)
             clipped = any(y[0] == "call" and y[1][0] == "a" and y[1][2] == "clip" and dict(y[3]).get("min") in (("c", "0.0"), ("c", "0")) for y in subterms(t))
@@ -256,12 +283,16 @@ def run(prog, ctx):
                   "normalisation of the surpluses: " + why)
 
 
-def gram_factor_checks(prog, ctx, fi, rule, mass_names=("res",), lv="levelvec"):
+def gram_factor_checks(prog, ctx, fi, rule, mass_names=None, lv=None):
     """Per-dimension factors multiplied into an entry under the three overlap cases, compared with the hat-function integrals."""
     from ..absint import poly_of_term, Poly
     tm = Terms(fi.node, max_depth=0)
     c = cfg_of(fi)
     out = []
+    if mass_names is None:
+        # role: plain locals that are stored into a matrix entry  M[i, j] = <local>  /  M[i][j] = <local>
+        mass_names = {st.value.id for st in walk_local(fi.node) if isinstance(st, ast.Assign) and isinstance(st.targets[0], ast.Subscript)
+                      and isinstance(st.value, ast.Name) and R._index_pair(st.targets[0], tm) is not None}
     for n in c.nodes:
         if n.kind == "stmt" and isinstance(n.ast, ast.AugAssign) and isinstance(n.ast.op, ast.Mult) and isinstance(n.ast.target, ast.Name) \
                 and n.ast.target.id in mass_names and n.idx in c.reachable():
@@ -303,8 +334,8 @@ def check_uniform_gram(prog, ctx):
                 problems.append("neighbouring hats: factor %s is not 1/(12*2^(l-1))" % show(t))
     # diagonal value: product over all dimensions of the identical-hat factor
     dv_ok = False
-    for b in tm.env.bindings.get("diag_val", []):
-        if b.kind == "assign":
+    for b in [b for bs in tm.env.bindings.values() for b in bs]:
+        if b.kind == "assign" and b.value is not None and any(isinstance(y, ast.Attribute) and y.attr == "prod" for y in ast.walk(b.value)):
             t = Terms(br.node).term(b.value)
             if t[0] == "call" and t[1] == ("a", ("n", "np"), "prod") and t[2] and t[2][0][0] == "comp":
                 comp = t[2][0]
@@ -321,7 +352,8 @@ def check_uniform_gram(prog, ctx):
     # disjoint supports contribute nothing
     zero = False
     for n in c.nodes:
-        if n.kind == "stmt" and isinstance(n.ast, ast.Assign) and isinstance(n.ast.targets[0], ast.Name) and n.ast.targets[0].id == "res" \
+        if n.kind == "stmt" and isinstance(n.ast, ast.Assign) and isinstance(n.ast.targets[0], ast.Name) \
+                and n.ast.targets[0].id in {nn.ast.target.id for (nn, _t) in facs} \
                 and isinstance(n.ast.value, ast.Constant) and n.ast.value.value == 0 and n.loops:
             zero = True
     ctx.check(zero, "C16.D6", R.key_of(br, "disjoint-supports-zero"), br.loc(), "entries of hats with disjoint supports are 0",
